@@ -260,8 +260,8 @@ def gen_import(rng):
 
 def part_A(chk, binary, scratch, res_broken):
     rng = chk.rng
-    n_trees = 24 if chk.tier == "quick" else 200
-    per_tree = 40 if chk.tier == "quick" else 60
+    n_trees = 24 if chk.tier == "quick" else 80
+    per_tree = 40 if chk.tier == "quick" else 50
     trees, cases = [], []
     for k in range(n_trees):
         t, dirs = gen_tree_A(rng, scratch, k)
@@ -488,7 +488,7 @@ def gen_tree_B(rng, scratch, k, plain=False):
 
 def part_B(chk, binary, scratch, res_broken):
     rng = chk.rng
-    n = 110 if chk.tier == "quick" else 800
+    n = 110 if chk.tier == "quick" else 400
     projs = []
     for k in range(n):
         plain = rng.random() < 0.4
